@@ -29,9 +29,10 @@ func TestC07(t *testing.T) {
 		histories++
 		var n int
 		var kinds []IOKind
+		var lens []int
 		v, _ := guarded("C07", c, func() (*Violation, map[string]int) {
-			v, cnt, ks, ev := faultFreeCount(c)
-			n, kinds = cnt, ks
+			v, cnt, ks, ls, ev := faultFreeCount(c)
+			n, kinds, lens = cnt, ks, ls
 			return v, ev
 		})
 		if v != nil {
@@ -43,7 +44,7 @@ func TestC07(t *testing.T) {
 		for k := 1; k <= n; k++ {
 			torns := []int{0}
 			if kinds[k-1] == IOWrite {
-				torns = []int{0, 1, 2, 3}
+				torns = tornModes(lens[k-1], os.Getenv("VERIF_TIER") == "thorough")
 			}
 			for ti, torn := range torns {
 				for abandon := 0; abandon <= 1; abandon++ {
